@@ -350,11 +350,22 @@ type garbage struct {
 	code     uint8 // expected NOTIFICATION code (0 = no expectation)
 	sub      uint8 // expected subcode (0 = not checked)
 	thenEOF  bool
+	why      string // what was changed (structured mutations)
 }
 
 func genGarbage(r *simrt.Rand, pc PeerCfg, state string) garbage {
 	ka := EncodeKeepalive()
-	switch r.Intn(9) {
+	k := r.Intn(12)
+	if k >= 9 && state == "established" {
+		// one field of one attribute of a valid, attribute-rich UPDATE changed (c21_mutations.go)
+		for try := 0; try < 10; try++ {
+			v6 := pc.IPv6 && r.Chance(0.6)
+			if b, what, ok := mutateUpdateField(r, richUpdate(r, pc, v6, r.Chance(0.3))); ok {
+				return garbage{raw: b, label: "update_field", why: what}
+			}
+		}
+	}
+	switch k {
 	case 0:
 		b := append([]byte(nil), ka...)
 		b[16], b[17] = 0, byte(r.Intn(19)) // length < 19
@@ -428,6 +439,7 @@ func genC21(seed uint64) *Plan {
 		pl.Peers[0].AS = 65000
 	}
 	pl.Peers[0].PeerHold, pl.Peers[0].DUTHold = 30, 30
+	pl.Peers[0].IPv6 = r.Chance(0.5)
 	pl.Steps = append(pl.Steps, Step{GapUS: 1000, Kind: "connect", Peer: 1})
 	pl.Steps = append(pl.Steps, Step{GapUS: 300_000, Kind: "announce", Peer: 1, Pfx: []Prefix{P4(203, 0, 113, 0, 24), P4(203, 0, 113, 128, 25)},
 		Attr: &AttrSpec{ASPath: []Segment{{2, []uint32{65002, 20001}}}, NextHop: 0x0a000002}})
@@ -451,6 +463,9 @@ func genC21(seed uint64) *Plan {
 				Attr: &AttrSpec{ASPath: []Segment{{2, []uint32{pl.Peers[0].AS, 20100 + uint32(k)}}}, NextHop: 0x0a000001, LocalPref: u32p(100)}})
 		}
 		st := Step{GapUS: int64(20_000 + r.Intn(400_000)), Kind: "raw", Peer: 0, Hex: hexEncode(g.raw), Label: g.label + "@" + state, Code: g.code, Sub: g.sub, Malformed: g.label}
+		if g.why != "" {
+			st.Label += " (" + g.why + ")"
+		}
 		st.Chunks, st.ChunkGapUS = randChunks(r, 0.4)
 		pl.Steps = append(pl.Steps, st)
 		if g.thenEOF {
